@@ -588,6 +588,9 @@ class MessageManager(ClientLike):
 
         for n in range(len(subscribers)):
             module = subscribers[n]
+            if module.conn not in self.modules:
+                # removed while this message was being delivered (e.g. by a nested CLIENT_CLOSED forward)
+                continue
             if module.conn in self.wlist:
                 try:
                     if (
